@@ -55,7 +55,7 @@ def plan(tier):
     p.append(('corr_correlate', 30 * m))
     p.append(('merge', 60 * m))
     p.append(('qtop', 40 * m))
-    p.append(('errors', 80 * m))
+    p.append(('errors', 100 * m))
     p.append(('flag', 40 * m))
     return p
 
@@ -292,7 +292,7 @@ def case_errors(ctx, rng):
     wtab = weight_table(rng, ctx.tier, ens='A')
     w = gen.table_to_obs(pe, wtab)
     n0 = sorted(wtab)[0]
-    row = int(rng.integers(0, 10))
+    row = int(rng.integers(0, 11))
     if row == 0:      # o has a configuration that w lacks
         otab = obs_on(rng, wtab, 'random', replica_subset=False)
         extra = max(wtab[n0]) + int(rng.integers(1, 4))
@@ -318,6 +318,26 @@ def case_errors(ctx, rng):
         btab[n0][max(cfgs) + 7] = 0.5       # same length, different configuration numbers
         b = gen.table_to_obs(pe, btab)
         expect_raises(ctx, lambda: pe.correlate(a, b), 'correlate:different-configuration-lists')
+    elif row == 10:   # reweight: as many configurations as the weight on a replica, but not the same ones
+        otab = {n: dict(d) for n, d in obs_on(rng, wtab, 'full', replica_subset=bool(rng.integers(0, 2))).items()}
+        nn = sorted(otab)[int(rng.integers(0, len(otab)))]
+        cfgs = sorted(otab[nn])
+        variant = int(rng.integers(0, 3))
+        if variant == 0:      # every configuration shifted by one step
+            step = cfgs[1] - cfgs[0]
+            new = [c + step for c in cfgs]
+        elif variant == 1:    # one interior configuration replaced by one the weight does not have
+            free = sorted(set(range(cfgs[0], cfgs[-1] + 2)) - set(cfgs))
+            k = int(rng.integers(1, len(cfgs) - 1))
+            new = sorted(set(cfgs[:k] + cfgs[k + 1:] + [free[0] if free else cfgs[-1] + 1]))
+        else:                 # the last configuration moved behind the end
+            new = cfgs[:-1] + [cfgs[-1] + 3]
+        if len(new) == len(cfgs) and set(new) != set(cfgs):
+            otab[nn] = {c: float(rng.normal(3.0, 1.0)) for c in new}
+            o = gen.table_to_obs(pe, otab)
+            expect_raises(ctx, lambda: pe.reweight(w, [o]), 'reweight:same-length-other-configurations')
+            expect_raises(ctx, lambda: pe.reweight(w, [o], all_configs=True), 'reweight:same-length-other-configurations')
+            expect_raises(ctx, lambda: o.reweight(w), 'Obs.reweight:same-length-other-configurations')
     elif row == 9:    # correlate: same length, same first and last configuration, different interior
         cfgs = sorted(set(int(c) for c in rng.choice(np.arange(2, 60), size=int(rng.integers(8, 20)), replace=False)) | {1, 64})
         other = list(cfgs)
